@@ -42,6 +42,13 @@ def judgeAll (lim : Limits) (nEv : Nat) (ctors : List String) (impl : List Strin
 /-! ### instruction, depth and stack bounds on the measured numbers -/
 #guard judgeAll lim0 1 [] ["r ret 0", "obs ticks=2301 maxcsp=3 maxsp=7 csp=-1 sp=-1 cost=2000 depth=20 stack=300"] != []
 #guard judgeAll lim0 1 [] ["r ret 0", "obs ticks=2300 maxcsp=3 maxsp=7 csp=-1 sp=-1 cost=2000 depth=20 stack=300"] == []
+-- a normal return after the budget was used up (a swallowed expiry): flagged; an error return with the same numbers is not
+#guard judgeAll lim0 1 [] ["r ret 0", "obs ticks=2000 maxcsp=3 maxsp=7 csp=-1 sp=-1 cost=2000 depth=20 stack=300 maxtouch=-1 cost0=2000"] != []
+#guard judgeAll lim0 1 [] ["r ret 0", "obs ticks=1999 maxcsp=3 maxsp=7 csp=-1 sp=-1 cost=2000 depth=20 stack=300 maxtouch=-1 cost0=2000"] == []
+#guard judgeAll lim0 1 [] ["r err es=2", "obs ticks=2030 maxcsp=3 maxsp=7 csp=-1 sp=-1 cost=2000 depth=20 stack=300 maxtouch=-1 cost0=2000"] == []
+-- a slot at or above the StackSize of the case was written between two fetches
+#guard judgeAll lim0 1 [] ["r ret 0", "obs ticks=100 maxcsp=3 maxsp=7 csp=-1 sp=-1 cost=2000 depth=20 stack=300 maxtouch=300"] != []
+#guard judgeAll lim0 1 [] ["r ret 0", "obs ticks=100 maxcsp=3 maxsp=7 csp=-1 sp=-1 cost=2000 depth=20 stack=300 maxtouch=-1"] == []
 #guard judgeAll lim0 1 [] ["r err es=1", "obs ticks=50 maxcsp=20 maxsp=7 csp=-1 sp=-1 cost=2000 depth=20 stack=300"] != []
 #guard judgeAll lim0 1 [] ["r err es=1", "obs ticks=50 maxcsp=19 maxsp=300 csp=-1 sp=-1 cost=2000 depth=20 stack=300"] != []
 #guard judgeAll { lim0 with cost := 0 } 1 [] ["r ret 0", "obs ticks=4000 maxcsp=1 maxsp=2 csp=-1 sp=-1 cost=0 depth=20 stack=300"] != []
